@@ -518,6 +518,7 @@ type Net struct {
 	udpFilter func(from, to *net.UDPAddr, data []byte) UDPVerdict
 	udpCount  map[string]int
 	udpMangle func(from, to *net.UDPAddr, data []byte) []byte
+	nat       *natState
 }
 
 func New(tape *simrt.Stream, cfg Config) *Net {
@@ -637,8 +638,12 @@ func (n *Net) newPair(from, to *net.TCPAddr) (*Conn, *Conn) {
 	a2b, b2a := newHalf(), newHalf()
 	n.mu.Lock()
 	id := len(n.conns)
+	seen := from // what the listener sees as the remote address: the NAT's public endpoint if the dialler is behind one
+	if ip, port := n.natOutLocked("tcp", from.IP, from.Port); !ip.Equal(from.IP) || port != from.Port {
+		seen = &net.TCPAddr{IP: ip, Port: port}
+	}
 	d := &Conn{n: n, id: id, dialer: true, local: from, rem: to, in: b2a, out: a2b, dlsig: make(chan struct{}, 1)}
-	l := &Conn{n: n, id: id + 1, local: to, rem: from, in: a2b, out: b2a, dlsig: make(chan struct{}, 1)}
+	l := &Conn{n: n, id: id + 1, local: to, rem: seen, in: a2b, out: b2a, dlsig: make(chan struct{}, 1)}
 	d.peer, l.peer = l, d
 	n.conns = append(n.conns, d, l)
 	cb := n.onConn
@@ -747,6 +752,9 @@ func (d *Dialer) DialContext(ctx context.Context, network, address string) (net.
 	l := n.listeners[k]
 	refused, hole := n.refused[k], n.blackhole[k]
 	blocked := n.blocked != nil && n.blocked(d.LocalIP, k)
+	if l == nil && n.isNATPublicLocked(to.IP) {
+		hole = true // no port forwarding: the SYN is dropped by the NAT
+	}
 	n.nextPort++
 	lp := n.nextPort
 	n.mu.Unlock()
